@@ -1,4 +1,5 @@
 import Cuke.Model.SchedLts
+import Cuke.Model.AttemptShape
 /-
   Monitors of C03–C08: the properties' own wording evaluated on the log of a REAL run
   (events in send order, probes, callbacks). Independent of the acceptor's model state.
@@ -245,6 +246,26 @@ def failFast (c : SCfg) (ls : List Label) : Option String :=
           let startedA := evs.filterMap (fun e => if isStartedEv e then attOf e else none)
           let finishedA := evs.filterMap (fun e => if isFinishedEv e then attOf e else none)
           if startedA.any (fun a => !finishedA.contains a) then some "a started attempt did not reach Finished" else none
+
+/-- C02 on a real concurrent run: the events of every attempt (projected out of the interleaved
+    stream) form a canonical attempt sequence (`shapeOk`, proved to accept every model attempt in
+    `Cuke.C02.runAttempt_shape`) and carry one retry counter. -/
+def attemptShapes (c : SCfg) (ls : List Label) : Option String :=
+  let evs := txEvents ls
+  let atts := (evs.filterMap attOf).eraseDups
+  let nstepsOf (scen : Nat) : Nat :=
+    (c.feats.findSome? (fun f => (featScenarios f).findSome? (fun rs => if rs.2.id == scen then some rs.2.nsteps else none))).getD 0
+  let bad := atts.find? (fun a =>
+    let mine := evs.filterMap (fun e => match e with
+      | .scen k ret se => if attOf e == some a then some (k, ret, se) else none
+      | _ => none)
+    let ses := (mine.map (·.2.2)).filter (fun se => match se with | .log _ => false | _ => true)
+    let sameCounter := match mine with
+      | [] => true
+      | m :: rest => rest.all (fun x => x.1 == m.1 && x.2.1 == m.2.1)
+    let nbg := ((c.bgTable.find? (fun p => p.1 == a.1)).map (·.2)).getD 0
+    !(shapeOk nbg (nstepsOf a.1) ses) || !sameCounter)
+  bad.map (fun a => s!"attempt {a.2} of scenario {a.1}: events are not the canonical sequence")
 
 def showMon (id : String) (known : Option String) (r : Option String) : String :=
   match r with
